@@ -239,6 +239,11 @@ def make_classes(spec):
                 v = sum((i + 2) * a[f] for i, f in enumerate(_fs)) * 3 + self.config["c_" + _n]
                 return out_arr(_fn, a["time"], a["endtime"], v)
 
+            if p.get("takes_chunk_i"):
+                # a plugin whose compute asks for the chunk number (strax then tracks first_chunk / chunk_i for it)
+                def compute(self, chunk_i, start, end, _inner=compute, **kw):  # noqa: F811
+                    return _inner(self, start, end, **kw)
+
             attrs.update(provides=(name,), dtype=dtype_for(fn), data_kind=kinds[name], compute=compute)
         elif t == "filter":
             m_, r_ = p.get("m", 2), p.get("r", 0)
